@@ -18,7 +18,7 @@ Definition enc_read (r : res N) : sx :=
 Definition read_root (univ : list key) (st : db) (root : N) : sx :=
   match historic_reader st root with
   | Err _ => SL [SI 1%Z]
-  | Ok id => SL (SI 0%Z :: map (fun k => enc_read (reader_read st id k)) univ)
+  | Ok rd => SL (SI 0%Z :: map (fun k => enc_read (reader_read st rd k)) univ)
   end.
 
 Definition meta_sx (st : db) : sx :=
@@ -27,11 +27,11 @@ Definition meta_sx (st : db) : sx :=
   | None => SL []
   end.
 
-Fixpoint slot_get (l : list (N * N)) (s : N) : option N :=
-  match l with [] => None | (s', id) :: r => if s' =? s then Some id else slot_get r s end.
+Fixpoint slot_get (l : list (N * hreader)) (s : N) : option hreader :=
+  match l with [] => None | (s', rd) :: r => if s' =? s then Some rd else slot_get r s end.
 
-Definition step18 (univ : list key) (stl : db * list (N * N)) (op : sx)
-  : option ((db * list (N * N)) * sx) :=
+Definition step18 (univ : list key) (stl : db * list (N * hreader)) (op : sx)
+  : option ((db * list (N * hreader)) * sx) :=
   let (st, slots) := stl in
   match op with
   | SL [SI 5%Z; SL rs] =>
@@ -43,7 +43,7 @@ Definition step18 (univ : list key) (stl : db * list (N * N)) (op : sx)
       match dec_n s, dec_n r with
       | Some s, Some r =>
           match historic_reader st r with
-          | Ok id => Some ((st, (s, id) :: slots), SL [SI 0%Z])
+          | Ok rd => Some ((st, (s, rd) :: slots), SL [SI 0%Z])
           | Err _ => Some ((st, slots), SL [SI 1%Z])
           end
       | _, _ => None
@@ -52,7 +52,7 @@ Definition step18 (univ : list key) (stl : db * list (N * N)) (op : sx)
       match dec_n s with
       | Some s =>
           match slot_get slots s with
-          | Some id => Some ((st, slots), SL (map (fun k => enc_read (reader_read st id k)) univ))
+          | Some rd => Some ((st, slots), SL (map (fun k => enc_read (reader_read st rd k)) univ))
           | None => Some ((st, slots), SL [SI 1%Z])
           end
       | None => None
@@ -64,7 +64,7 @@ Definition step18 (univ : list key) (stl : db * list (N * N)) (op : sx)
       end
   end.
 
-Fixpoint steps18 (univ : list key) (stl : db * list (N * N)) (ops : list sx) : option (list sx) :=
+Fixpoint steps18 (univ : list key) (stl : db * list (N * hreader)) (ops : list sx) : option (list sx) :=
   match ops with
   | [] => Some []
   | op :: r =>
@@ -80,7 +80,7 @@ Definition C18_run (c : sx) : sx :=
   | SL (SL [limit; full; maxdiff; _; _; na; ns] :: ops) =>
       match dec_n limit, sx_bool full, sx_nat maxdiff, sx_nat na, sx_nat ns with
       | Some limit, Some full, Some maxdiff, Some na, Some ns =>
-          match steps18 (universe na ns) (init_db (mkCfg limit full maxdiff) 0 true, []) ops with
+          match steps18 (universe na ns) (init_db (mkCfg limit full maxdiff false false false) 0 true, []) ops with
           | Some os => SL os
           | None => SErr 1
           end
